@@ -172,3 +172,23 @@ Theorem C07_added_failure_then_retry_is_failure_free : forall c outcome,
            (ce_step e) (ce_partial e) false false.
 Proof. exact added_failure_heals. Qed.
 Print Assumptions C07_added_failure_then_retry_is_failure_free.
+
+(** ... and for a 'removed' event (no trashbin): the failed removal is parked (the object stays on
+    the target side, the expected-state caches no longer hold it), the healthy retry yields the
+    failure-free state.  With the three theorems, one failure of any kind of event on a healthy
+    client heals to exactly the failure-free run. *)
+From Hermes Require Import Proofs.ClientHealRem.
+Theorem C07_removed_failure_then_retry_is_failure_free : forall c outcome,
+  cc_retention c = None -> cc_remed c = RDisabled ->
+  forall r l n cs stp prt rty fr e ct old lold,
+  find_ctype c (ce_t e) = Some ct -> ct_fks ct = [] -> ce_kind e = KRemoved ->
+  r !! ce_id e = Some old -> l !! ce_id e = Some lold ->
+  outcome n = HFail -> outcome (S n) = HOk ->
+  let st1 := fst (process_remote c outcome FUEL (hstate r l n cs stp prt rty fr) e None true false) in
+  (r_live st1 = r /\ l_live st1 = l /\ length (queue st1) = 1%nat) /\
+  retry_queue c outcome st1 =
+    hstate (delete (ce_id e) r) (delete (ce_id e) l) (S (S n))
+           (cs ++ [rem_call e lold rty HFail] ++ [rem_call e lold true HOk])
+           (ce_step e) (ce_partial e) false false.
+Proof. exact removed_failure_heals. Qed.
+Print Assumptions C07_removed_failure_then_retry_is_failure_free.
